@@ -753,7 +753,8 @@ fn exact_len(rng: &mut Rng, spec: &Spec, h: Vec<u8>, n: usize) -> Vec<u8> {
     // cut at a character boundary at or below n, then pad with ASCII to n
     let mut cut = n;
     if utf8 {
-        while cut > 0 && (out[cut] & 0xC0) == 0x80 {
+        // `cut == out.len()` is a boundary already
+        while cut > 0 && cut < out.len() && (out[cut] & 0xC0) == 0x80 {
             cut -= 1;
         }
     }
